@@ -1,6 +1,8 @@
 import GB.C04.Refine
+import GB.C04.StageOracle
 import GB.C04.WF
 import GB.C04.B64
+import GB.C04.TextProofs
 import GB.Generated.Facts
 /-
   C04 — transcoded requests populate the gRPC message per the http.proto binding rules.
@@ -148,7 +150,7 @@ example :
 /-! ## the per-field rule (partial: fields outside oneofs, keys that do not overlap)
 
   Full statement aimed at (DESIGN 5.4, `C04_refines`): for ALL schemas/bindings/requests the populated
-  leaves of `transcode …` are exactly those of `GB.C04.expect …` (GB/C04/Spec.lean): path variable, else
+  leaves of `transcode …` are exactly those of `GB.C04.expectRules …` (GB/C04/Spec.lean): path variable, else
   body, else unfiltered query parameter, else nothing.  `./check` tests exactly that equation on every
   generated case.  Proved here: the three clauses of the rule as theorems about `transcode`, under the
   side conditions `PathsAvoid` / `QueryAvoids` (every OTHER applied key names a field outside any oneof
@@ -433,6 +435,186 @@ example : parseBytes [65, 81, 73, 68] = some [1, 2, 3]                       -- 
     ∧ parseBytes [] = some [] := by
   decide
 
+/-! ## text forms of well-known types in path / query parameters (round 5)
+
+  Modelled as coded (internal/gwquery parseMessage), no oracle: the wrappers Int64Value / Int32Value / UInt64Value /
+  UInt32Value / BoolValue / StringValue / BytesValue (the scalar parsers above + `{value: v}`), FieldMask (UTF-8 check,
+  `strings.Split(",")`), and — new — Duration: `time.ParseDuration` (sign, `([0-9]*(\.[0-9]*)?unit)+`, units
+  ns us µs μs ms s m h, the 2^63 overflow checks in their places) followed by `durationpb.New`. The one place where Go
+  leaves integer arithmetic — a fraction with more digits than the unit has decimal places, multiplied through float64 —
+  is outside the model (`parseDurationGo = none`: post-library oracle, as float / double / Timestamp / Struct / Value).
+  Differential cases: `pf Duration <text>` (≈ 1000 quick), and every tc/ts/st case with Duration-typed fields. -/
+
+/-- **Duration, accepted text**: the message is `durationpb.New(ns)` for the int64 nanosecond count `ns` the text
+    denotes — seconds and nanos of the same sign, |nanos| < 10^9, seconds·10^9 + nanos = ns: the value is never
+    altered on the way into the message. -/
+theorem C04_duration_text_accepted (orc : Oracle) (t : Bytes) (ns : Int) (h : parseDurationGo t = some (some ns)) :
+    parseMessage orc wDuration t = .ok (durationEntries ns)
+    ∧ -(2 ^ 63 : Int) ≤ ns ∧ ns < 2 ^ 63
+    ∧ Int.tdiv ns 1000000000 * 1000000000 + Int.tmod ns 1000000000 = ns
+    ∧ -1000000000 < Int.tmod ns 1000000000 ∧ Int.tmod ns 1000000000 < 1000000000
+    ∧ (0 ≤ ns → 0 ≤ Int.tdiv ns 1000000000 ∧ 0 ≤ Int.tmod ns 1000000000)
+    ∧ (ns ≤ 0 → Int.tdiv ns 1000000000 ≤ 0 ∧ Int.tmod ns 1000000000 ≤ 0) := by
+  have h1 : (wDuration = wInt64) = False := by decide
+  have h2 : (wDuration = wInt32) = False := by decide
+  have h3 : (wDuration = wUInt64) = False := by decide
+  have h4 : (wDuration = wUInt32) = False := by decide
+  have h5 : (wDuration = wBool) = False := by decide
+  have h6 : (wDuration = wString) = False := by decide
+  have h7 : (wDuration = wBytes) = False := by decide
+  have h8 : (wDuration = wFieldMask) = False := by decide
+  obtain ⟨r1, r2⟩ := parseDurationGo_range t ns h
+  obtain ⟨s1, s2, s3, s4, s5⟩ := duration_split ns
+  exact ⟨by simp [parseMessage, h, h1, h2, h3, h4, h5, h6, h7, h8], r1, r2, s1, s2, s3, s4, s5⟩
+
+/-- **Duration, rejected text** (no digits, missing / unknown unit, a component or the sum beyond int64 nanoseconds,
+    junk): InvalidArgument — never a clamped or wrapped value, never Internal. -/
+theorem C04_duration_text_rejected (orc : Oracle) (t : Bytes) (h : parseDurationGo t = some none) :
+    parseMessage orc wDuration t = .error .invalidArgument := by
+  have h1 : (wDuration = wInt64) = False := by decide
+  have h2 : (wDuration = wInt32) = False := by decide
+  have h3 : (wDuration = wUInt64) = False := by decide
+  have h4 : (wDuration = wUInt32) = False := by decide
+  have h5 : (wDuration = wBool) = False := by decide
+  have h6 : (wDuration = wString) = False := by decide
+  have h7 : (wDuration = wBytes) = False := by decide
+  have h8 : (wDuration = wFieldMask) = False := by decide
+  simp [parseMessage, h, h1, h2, h3, h4, h5, h6, h7, h8]
+
+/-- **Duration, canonical proto3 JSON text** `"<seconds>.<fraction>s"` (decimal seconds, at most 9 fraction digits — the
+    form protojson emits), within the int64 nanosecond range: accepted, with exactly the value the canonical mapping
+    assigns, seconds·10^9 + fraction·10^(9−k) nanoseconds. (Beyond ±2^63 ns — canonical JSON allows ±10000 years — the
+    code rejects: `C04_duration_text_rejected`; it additionally accepts Go's forms `1h2m`, `100ms`, `+3s`, `.5s`.) -/
+theorem C04_duration_text_canonical (ds fs : Bytes) (hds : ds.all isDigit = true) (hne : ds ≠ [])
+    (hfs : fs.all isDigit = true) (hk : fs.length ≤ 9)
+    (hr : digitsVal 0 ds * 1000000000 + digitsVal 0 fs * 10 ^ (9 - fs.length) ≤ 9223372036854775807) :
+    parseDurationGo (ds ++ 46 :: (fs ++ [115])) =
+      some (some ((digitsVal 0 ds * 1000000000 + digitsVal 0 fs * 10 ^ (9 - fs.length) : Nat) : Int)) :=
+  parseDurationGo_canonical ds fs hds hne hfs hk hr
+
+/-- kernel-evaluated instances: "1.5s", "-2h3m", "100ms", "+3s", ".5s", "0", the int64 edge
+    "2562047h47m16.854775807s" (accepted) / "…808s" (rejected) / "-…808s" (accepted: MinInt64), "1", "1d", "1 s", ""
+    (rejected), "1.5ns" and "0.0000000001s" (float64 rounding: outside the model). -/
+example :
+    parseDurationGo [49, 46, 53, 115] = some (some 1500000000)
+    ∧ parseDurationGo [45, 50, 104, 51, 109] = some (some (-7380000000000))
+    ∧ parseDurationGo [49, 48, 48, 109, 115] = some (some 100000000)
+    ∧ parseDurationGo [43, 51, 115] = some (some 3000000000)
+    ∧ parseDurationGo [46, 53, 115] = some (some 500000000)
+    ∧ parseDurationGo [48] = some (some 0)
+    ∧ parseDurationGo [49] = some none
+    ∧ parseDurationGo [49, 100] = some none
+    ∧ parseDurationGo [49, 32, 115] = some none
+    ∧ parseDurationGo [] = some none
+    ∧ parseDurationGo [49, 46, 53, 110, 115] = none
+    ∧ parseDurationGo [48, 46, 48, 48, 48, 48, 48, 48, 48, 48, 48, 49, 115] = none
+    ∧ durationEntries 1500000000 = [([nSeconds], .single (.int 1)), ([nNanos], .single (.int 500000000))]
+    ∧ durationEntries (-1500000000) = [([nSeconds], .single (.int (-1))), ([nNanos], .single (.int (-500000000)))] := by
+  decide
+
+/-- **Integer text, value**: an accepted text denotes its value — optional sign, then decimal digits read left to right
+    (`digitsVal`): no other base, nothing truncated or wrapped (ranges: `C04_int_text`, `C04_uint_text`). The canonical
+    proto3 JSON mapping assigns a decimal literal exactly this value; the code additionally accepts a leading '+' and
+    leading zeros (as `strconv` does), with the same reading. -/
+theorem C04_int_text_value (s : Bytes) (bits : Nat) (i : Int) (h : parseInt s bits = some i) :
+    ∃ c rest, s = c :: rest ∧
+      i = (if c == 45 then -1 else 1) * ((digitsVal 0 (if c == 43 || c == 45 then rest else s) : Nat) : Int) := by
+  cases s with
+  | nil => simp [parseInt] at h
+  | cons c rest =>
+    rw [parseInt_cons] at h
+    refine ⟨c, rest, rfl, ?_⟩
+    cases hd : parseDigits (if c == 43 || c == 45 then rest else c :: rest) with
+    | none => simp only [hd] at h; simp at h
+    | some n =>
+      have hn : n = digitsVal 0 (if c == 43 || c == 45 then rest else c :: rest) := parseDigits_val hd
+      simp only [hd] at h
+      split at h
+      · simp at h
+      · split at h
+        · simp at h
+        · simp only [Option.some.injEq] at h
+          rw [← h, ← hn]
+          cases hb : (c == 45) <;> simp
+
+theorem C04_uint_text_value (s : Bytes) (bits n : Nat) (h : parseUint s bits = some n) : n = digitsVal 0 s := by
+  unfold parseUint at h
+  cases hd : parseDigits s with
+  | none => simp [hd] at h
+  | some m =>
+    have hm : m = digitsVal 0 s := parseDigits_val hd
+    simp only [hd] at h
+    split at h
+    · simp at h; rw [← h, hm]
+    · simp at h
+
+/-- **Wrappers and FieldMask are fully modelled**: the result does not depend on the oracle table, an accepted text
+    gives `{value: v}` for the value the scalar parser of the wrapped kind yields (`C04_int_text`, `C04_uint_text`,
+    `C04_bool_text`, `C04_string_text`, `C04_bytes_text`: ranges per kind, leading '+' and leading zeros accepted for the
+    signed / all integer kinds as `strconv` does, no hex, no underscores, no spaces), a rejected text is InvalidArgument. -/
+theorem C04_wrapper_text (orc : Oracle) (t : Bytes) :
+    parseMessage orc wInt64 t = (optToExcept (parseInt t 64)).map (fun i => wrapperEntries (.int i))
+    ∧ parseMessage orc wInt32 t = (optToExcept (parseInt t 32)).map (fun i => wrapperEntries (.int i))
+    ∧ parseMessage orc wUInt64 t = (optToExcept (parseUint t 64)).map (fun n => wrapperEntries (.int (Int.ofNat n)))
+    ∧ parseMessage orc wUInt32 t = (optToExcept (parseUint t 32)).map (fun n => wrapperEntries (.int (Int.ofNat n)))
+    ∧ parseMessage orc wBool t = (optToExcept (parseBool t)).map (fun b => wrapperEntries (.bool b))
+    ∧ parseMessage orc wString t = (if validUTF8 t then .ok (wrapperEntries (.bytes t)) else .error .invalidArgument)
+    ∧ parseMessage orc wBytes t = (optToExcept (parseBytes t)).map (fun b => wrapperEntries (.bytes b))
+    ∧ parseMessage orc wFieldMask t =
+        (if validUTF8 t then .ok [([nPaths], .list ((splitOnByte 44 t).map .bytes))] else .error .invalidArgument) := by
+  have a1 : (wInt32 = wInt64) = False := by decide
+  have b1 : (wUInt64 = wInt64) = False := by decide
+  have b2 : (wUInt64 = wInt32) = False := by decide
+  have c1 : (wUInt32 = wInt64) = False := by decide
+  have c2 : (wUInt32 = wInt32) = False := by decide
+  have c3 : (wUInt32 = wUInt64) = False := by decide
+  have d1 : (wBool = wInt64) = False := by decide
+  have d2 : (wBool = wInt32) = False := by decide
+  have d3 : (wBool = wUInt64) = False := by decide
+  have d4 : (wBool = wUInt32) = False := by decide
+  have e1 : (wString = wInt64) = False := by decide
+  have e2 : (wString = wInt32) = False := by decide
+  have e3 : (wString = wUInt64) = False := by decide
+  have e4 : (wString = wUInt32) = False := by decide
+  have e5 : (wString = wBool) = False := by decide
+  have f1 : (wBytes = wInt64) = False := by decide
+  have f2 : (wBytes = wInt32) = False := by decide
+  have f3 : (wBytes = wUInt64) = False := by decide
+  have f4 : (wBytes = wUInt32) = False := by decide
+  have f5 : (wBytes = wBool) = False := by decide
+  have f6 : (wBytes = wString) = False := by decide
+  have g1 : (wFieldMask = wInt64) = False := by decide
+  have g2 : (wFieldMask = wInt32) = False := by decide
+  have g3 : (wFieldMask = wUInt64) = False := by decide
+  have g4 : (wFieldMask = wUInt32) = False := by decide
+  have g5 : (wFieldMask = wBool) = False := by decide
+  have g6 : (wFieldMask = wString) = False := by decide
+  have g7 : (wFieldMask = wBytes) = False := by decide
+  refine ⟨?_, ?_, ?_, ?_, ?_, ?_, ?_, ?_⟩
+  · simp [parseMessage]
+  · simp [parseMessage, a1]
+  · simp [parseMessage, b1, b2]
+  · simp [parseMessage, c1, c2, c3]
+  · simp [parseMessage, d1, d2, d3, d4]
+  · simp [parseMessage, e1, e2, e3, e4, e5]
+  · simp [parseMessage, f1, f2, f3, f4, f5, f6]
+  · simp [parseMessage, g1, g2, g3, g4, g5, g6, g7]
+
+/-- a rejected wrapper / FieldMask / in-domain Duration text is InvalidArgument, whatever the oracle table holds -/
+theorem C04_wkt_text_rejected_invalidArgument (orc : Oracle) (ref : Name) (t : Bytes) (e : Err)
+    (href : ref = wInt64 ∨ ref = wInt32 ∨ ref = wUInt64 ∨ ref = wUInt32 ∨ ref = wBool ∨ ref = wString ∨ ref = wBytes ∨ ref = wFieldMask)
+    (h : parseMessage orc ref t = .error e) : e = .invalidArgument := by
+  obtain ⟨w1, w2, w3, w4, w5, w6, w7, w8⟩ := C04_wrapper_text orc t
+  rcases href with rfl | rfl | rfl | rfl | rfl | rfl | rfl | rfl
+  · rw [w1] at h; exact map_optToExcept_err h
+  · rw [w2] at h; exact map_optToExcept_err h
+  · rw [w3] at h; exact map_optToExcept_err h
+  · rw [w4] at h; exact map_optToExcept_err h
+  · rw [w5] at h; exact map_optToExcept_err h
+  · rw [w6] at h; split at h <;> simp at h; exact h.symm
+  · rw [w7] at h; exact map_optToExcept_err h
+  · rw [w8] at h; split at h <;> simp at h; exact h.symm
+
 /-! ## no model-input fault on well-formed inputs -/
 
 /-- `wfInputs` (GB/C04/WF.lean, executable; the driver evaluates it on every case and answers BAD when it is
@@ -521,6 +703,112 @@ theorem C04_refines_body_error (sch : Schema) (orc : Oracle) (root : MsgDesc) (b
 example :
     srcsOf exSchema exRoot (allCalls exSchema exRoot ⟨wildcard⟩ ⟨[([97], [55])], [([98], [[121]])]⟩) = some [⟨[[97]], exFa, [[55]]⟩]
     ∧ leafParse exSchema exNoOracle exFa [[55]] = .ok (.scalar (.int 7) true) := by
+  decide
+
+/-! ## the executable oracle of the differential run IS the declarative specification (round 5)
+
+  `stageExpect` (GB/C04/StageOracle.lean) is what the driver judges every case inside the hypotheses of
+  `C04_refines` by (branch suffix `-thm`): computed from descriptors and request alone — body-stage message, then
+  `applyWrite` of every call's parsed values, no walk through `populateGo`, no `Mutable`. The three theorems below
+  replace "both are checked on every case" by a proof, for every schema, body, path-parameter list and query:
+  defined exactly on the theorem's domain; an accepting answer is a message satisfying `StageSpec`, `StageSpec`
+  determines the populated leaves uniquely, and `transcode` accepts with exactly these leaves; a rejecting answer is
+  `transcode`'s rejection with the same error. Requests through oneof members / with overlapping keys stay outside
+  (`stageExpect = none`; judged by `expect`, `frameOK`, `mustFail` as before). -/
+
+/-- the oracle speaks exactly on the domain of `C04_refines` -/
+theorem C04_stage_oracle_defined (sch : Schema) (orc : Oracle) (root : MsgDesc) (bd : Binding) (dec : Dec) (rq : Request) :
+    (∃ r, stageExpect sch orc root bd dec rq = some r) ↔
+      ∃ srcs, srcsOf sch root (allCalls sch root bd rq) = some srcs ∧ Unrelated srcs := by
+  constructor
+  · rintro ⟨r, h⟩
+    obtain ⟨srcs, hs, hu, _⟩ := stageExpect_some h
+    exact ⟨srcs, hs, hu⟩
+  · rintro ⟨srcs, hs, hu⟩
+    exact stageExpect_defined sch orc root bd dec rq srcs hs hu
+
+/-- an accepting answer `l` of the oracle: `l` satisfies `StageSpec` over the body-stage message and the request's
+    sources; every message satisfying `StageSpec` has the populated leaves of `l`; the model of the code accepts
+    with exactly the populated leaves of `l`. -/
+theorem C04_stage_oracle_accepts (sch : Schema) (orc : Oracle) (root : MsgDesc) (bd : Binding) (dec : Dec) (rq : Request) (l : Msg)
+    (h : stageExpect sch orc root bd dec rq = some (.ok l)) :
+    ∃ m0 srcs m, bodyStage sch root bd dec = .ok m0
+        ∧ srcsOf sch root (allCalls sch root bd rq) = some srcs ∧ Unrelated srcs
+        ∧ StageSpec sch orc m0 srcs l
+        ∧ (∀ m', StageSpec sch orc m0 srcs m' → ∀ q, lget m' q = lget l q)
+        ∧ transcode sch orc root bd dec rq = .ok m ∧ (∀ q, lget m q = lget l q) :=
+  stageExpect_ok sch orc root bd dec rq l h
+
+/-- a rejecting answer of the oracle is the code's rejection, same error (first value in call order that does not
+    parse, or the body stage's error) -/
+theorem C04_stage_oracle_rejects (sch : Schema) (orc : Oracle) (root : MsgDesc) (bd : Binding) (dec : Dec) (rq : Request) (e : Err)
+    (h : stageExpect sch orc root bd dec rq = some (.error e)) : transcode sch orc root bd dec rq = .error e :=
+  stageExpect_error sch orc root bd dec rq e h
+
+/-- conversely, whatever `transcode` answers inside the domain is what the oracle says (so a case judged OK against
+    `stageExpect` is a case in which the implementation produced the `StageSpec` message) -/
+theorem C04_stage_oracle_complete (sch : Schema) (orc : Oracle) (root : MsgDesc) (bd : Binding) (dec : Dec) (rq : Request)
+    (srcs : List Src) (hs : srcsOf sch root (allCalls sch root bd rq) = some srcs) (hu : Unrelated srcs) :
+    (∀ m, transcode sch orc root bd dec rq = .ok m →
+        ∃ l, stageExpect sch orc root bd dec rq = some (.ok l) ∧ ∀ q, lget m q = lget l q)
+    ∧ (∀ e, transcode sch orc root bd dec rq = .error e → stageExpect sch orc root bd dec rq = some (.error e)) := by
+  obtain ⟨r, hr⟩ := stageExpect_defined sch orc root bd dec rq srcs hs hu
+  constructor
+  · intro m hm
+    cases r with
+    | error e => rw [stageExpect_error sch orc root bd dec rq e hr] at hm; simp at hm
+    | ok l =>
+      obtain ⟨_, _, m2, _, _, _, _, _, hm2, hl⟩ := stageExpect_ok sch orc root bd dec rq l hr
+      rw [hm] at hm2
+      cases hm2
+      exact ⟨l, hr, hl⟩
+  · intro e he
+    cases r with
+    | error e' =>
+      rw [stageExpect_error sch orc root bd dec rq e' hr] at he
+      cases he
+      exact hr
+    | ok l =>
+      obtain ⟨_, _, m2, _, _, _, _, _, hm2, _⟩ := stageExpect_ok sch orc root bd dec rq l hr
+      rw [he] at hm2; simp at hm2
+
+/-- **`expect` — the executable oracle the driver judges every case by — is the declarative `StageSpec`** on every
+    request inside the hypotheses of `C04_refines`, for every schema, body, path-parameter list and query: there it is
+    defined and equals `stageExpect` … -/
+theorem C04_expect_in_domain (sch : Schema) (orc : Oracle) (root : MsgDesc) (bd : Binding) (dec : Dec) (rq : Request)
+    (srcs : List Src) (hs : srcsOf sch root (allCalls sch root bd rq) = some srcs) (hu : Unrelated srcs) :
+    expect sch orc root bd dec rq = stageExpect sch orc root bd dec rq ∧ ∃ r, expect sch orc root bd dec rq = some r := by
+  have h := expect_eq_stage sch orc root bd dec rq srcs hs hu
+  obtain ⟨r, hr⟩ := stageExpect_defined sch orc root bd dec rq srcs hs hu
+  exact ⟨h, r, by rw [h, hr]⟩
+
+/-- … an accepting verdict `l` of `expect` is a message satisfying `StageSpec` over the body-stage message and the
+    request's sources, `StageSpec` pins its populated leaves down uniquely, and the code's model accepts with exactly
+    these leaves (so "impl leaves = expect leaves" in the driver IS "impl satisfies StageSpec") … -/
+theorem C04_expect_accepts (sch : Schema) (orc : Oracle) (root : MsgDesc) (bd : Binding) (dec : Dec) (rq : Request)
+    (srcs : List Src) (hs : srcsOf sch root (allCalls sch root bd rq) = some srcs) (hu : Unrelated srcs) (l : Msg)
+    (h : expect sch orc root bd dec rq = some (.ok l)) :
+    ∃ m0 m, bodyStage sch root bd dec = .ok m0
+        ∧ StageSpec sch orc m0 srcs l
+        ∧ (∀ m', StageSpec sch orc m0 srcs m' → ∀ q, lget m' q = lget l q)
+        ∧ transcode sch orc root bd dec rq = .ok m ∧ (∀ q, lget m q = lget l q) := by
+  rw [expect_eq_stage sch orc root bd dec rq srcs hs hu] at h
+  obtain ⟨m0, srcs', m, hb, hs', _, hspec, huniq, ht, hl⟩ := stageExpect_ok sch orc root bd dec rq l h
+  rw [hs] at hs'
+  cases hs'
+  exact ⟨m0, m, hb, hspec, huniq, ht, hl⟩
+
+/-- … and a rejecting verdict is the code's rejection with the same error. -/
+theorem C04_expect_rejects (sch : Schema) (orc : Oracle) (root : MsgDesc) (bd : Binding) (dec : Dec) (rq : Request)
+    (srcs : List Src) (hs : srcsOf sch root (allCalls sch root bd rq) = some srcs) (hu : Unrelated srcs) (e : Err)
+    (h : expect sch orc root bd dec rq = some (.error e)) : transcode sch orc root bd dec rq = .error e := by
+  rw [expect_eq_stage sch orc root bd dec rq srcs hs hu] at h
+  exact stageExpect_error sch orc root bd dec rq e h
+
+/-- non-vacuity: body "*" = {a: 1, b: "x"}, path variable a=7: the oracle accepts with a = 7 over the body, b kept -/
+example :
+    stageExpect exSchema exNoOracle exRoot ⟨wildcard⟩ exBodyAB ⟨[([97], [55])], [([98], [[121]])]⟩
+      = some (.ok [([[97]], .single (.int 7)), ([[98]], .single (.bytes [120]))]) := by
   decide
 
 /-! ## the per-field clauses for every kind of leaf (list, map, wrapper / well-known type, scalar) -/
@@ -787,4 +1075,27 @@ theorem C04_facts_target_literal :
 /-- no production file of reflection/, bridgedesc/, transcoding/, internal/gwquery/ mentions
     protoregistry.GlobalTypes or protoregistry.GlobalFiles -/
 theorem C04_facts_no_global_registry : GB.Generated.c04GlobalRegistryRefs = [] := by
+  decide
+
+/-! ## facts tie for the Duration text form (round 5; extract/c04.go, regenerated on every run) -/
+
+/-- the Duration case of `gwquery.parseMessage` is `time.ParseDuration(value)` followed by `durationpb.New(d)` on the
+    unmodified result — nothing in between (a truncation, a second parser, a lenient fallback would show up here) -/
+theorem C04_facts_duration_calls :
+    GB.Generated.c04DurationCalls = ["time.ParseDuration(value)", "durationpb.New(d)"] := by decide
+
+/-- the model's unit table is `unitMap` of the time package the harness is built with (go/ast over GOROOT/src/time):
+    the same eight units with the same nanosecond values — and nothing else is a unit -/
+theorem C04_facts_duration_units :
+    GB.Generated.c04TimeUnitMap.length = 8 ∧
+    GB.Generated.c04TimeUnitMap.all (fun e => (durUnit (e.1.map UInt8.ofNat)).map Prod.fst == some e.2) = true := by
+  decide
+
+/-- why the model is exact inside its domain: for every unit, 10^maxk divides the unit (so `float64(unit)/scale` is an
+    integer for fractions of at most maxk digits), and the unit — hence every product `f · unit/10^k` with `f < 10^k` —
+    is below 2^53 (exactly representable in float64) -/
+theorem C04_duration_exact_domain :
+    GB.Generated.c04TimeUnitMap.all (fun e => match durUnit (e.1.map UInt8.ofNat) with
+      | some (unit, maxk) => unit % 10 ^ maxk == 0 && decide (unit < 2 ^ 53) && decide (10 ^ maxk ≤ unit)
+      | none => false) = true := by
   decide
